@@ -182,6 +182,7 @@ func stageDecodeHistory(seed uint64, thorough bool, res *childResult) {
 		step++
 		res.Cases++
 		line := v.Line()
+		progress("decode-history step " + strconv.Itoa(step) + " " + vh.Clip(line, 300))
 		back, o := roundtripLine(v)
 		if !o.OK() || back != line {
 			res.fail("ReadValue:"+vg.TypeName[v.K]+":depends-on-earlier-decodes",
@@ -310,6 +311,7 @@ func stageAfterFailures(seed uint64, thorough bool, res *childResult) {
 	}
 	failed, succeeded := 0, 0
 	for _, k := range ks {
+		progress("after-failures k=" + strconv.Itoa(k))
 		for i := 0; i < k; i++ {
 			b := bad[(i+k)%len(bad)]
 			if i%2 == 1 {
@@ -323,6 +325,7 @@ func stageAfterFailures(seed uint64, thorough bool, res *childResult) {
 			}
 		}
 		for depth := 1; depth <= 12; depth++ {
+			progress("after-failures valid depth " + strconv.Itoa(depth))
 			v := nested(depth)
 			res.Cases++
 			back, o := roundtripLine(v)
@@ -377,6 +380,7 @@ func stageConcurrent(seed uint64, thorough bool, res *childResult) {
 		}
 	}
 	var mu sync.Mutex
+	progressed := false
 	var wg sync.WaitGroup
 	start := make(chan struct{})
 	for w := 0; w < workers; w++ {
@@ -385,6 +389,9 @@ func stageConcurrent(seed uint64, thorough bool, res *childResult) {
 			defer wg.Done()
 			<-start
 			for it := 0; it < iters; it++ {
+				mu.Lock()
+				progressed = true
+				mu.Unlock()
 				for _, x := range streams[w] {
 					var b []byte
 					var back string
@@ -409,15 +416,239 @@ func stageConcurrent(seed uint64, thorough bool, res *childResult) {
 		}(w)
 	}
 	close(start)
+	progress("concurrent encode/decode")
+	go func() {
+		for range time.Tick(5 * time.Second) {
+			mu.Lock()
+			p := progressed
+			progressed = false
+			mu.Unlock()
+			if p {
+				progress("concurrent encode/decode")
+			}
+		}
+	}()
 	wg.Wait()
 	res.Cases += workers * iters * 40
 	res.Counts["concurrent:encode+decode"] = workers * iters * 40
 }
 
+// ---- shared read-only values
+
+// stageShared: several goroutines use the SAME value objects at once, read-only (encode, Equals,
+// CompareTo, enumerate Keys, Size, Get, String): every encoding must be the sequential one and every
+// enumeration must yield each key once.  Before that, deterministically: an encode / Size / Get /
+// String / a second full enumeration issued from INSIDE a loop over Keys() must not disturb that loop.
+func stageShared(seed uint64, thorough bool, res *childResult) {
+	fmt.Fprintln(os.Stderr, "stage shared")
+	r := vh.NewRng(seed ^ 0x4444)
+	gen := vg.New(r.Fork(), vg.Opt{Depth: 3, Width: 6, Wide: 90, WidePct: 15, Nil: true})
+	type shared struct {
+		v     *vg.V
+		g     value.Value
+		bytes string
+	}
+	var objs []*shared
+	for i := 0; i < 24; i++ {
+		var v *vg.V
+		switch i % 4 {
+		case 0:
+			v = gen.Container("m", 3)
+		case 1:
+			v = gen.Container("im", 3)
+		case 2:
+			v = gen.Container("l", 3)
+		default:
+			v = &vg.V{K: "l", L: []*vg.V{gen.Container("m", 2), gen.Container("im", 2), gen.Flat("at"), gen.Flat("S")}}
+		}
+		if (v.K == "m" || v.K == "im") && len(v.L) < 2 {
+			v = gen.Container(v.K, 2)
+		}
+		var g value.Value
+		if o := vh.Guard(func() { g = v.ToGo() }); !o.OK() {
+			continue
+		}
+		objs = append(objs, &shared{v, g, vh.Hex(encode(g))})
+	}
+	// keys of a container, through its enumerator, with a nested use inside the loop
+	enumerate := func(g value.Value, nested func()) (keys []string, size int) {
+		switch x := g.(type) {
+		case *value.MapValue:
+			en := x.Keys()
+			for en.HasMoreElements() {
+				k := en.NextString()
+				keys = append(keys, k)
+				if nested != nil {
+					nested()
+					x.Get(k)
+				}
+			}
+			size = x.Size()
+		case *value.IntMapValue:
+			en := x.Keys()
+			for en.HasMoreElements() {
+				k := en.NextInt()
+				keys = append(keys, strconv.Itoa(int(k)))
+				if nested != nil {
+					nested()
+					x.Get(k)
+				}
+			}
+			size = x.Size()
+		case *value.ListValue:
+			for i := 0; i < x.Size(); i++ {
+				keys = append(keys, strconv.Itoa(i))
+				if nested != nil {
+					nested()
+					x.Get(i)
+				}
+			}
+			size = x.Size()
+		}
+		return
+	}
+	wantKeys := func(v *vg.V) []string {
+		var ks []string
+		for i := range v.L {
+			switch v.K {
+			case "m":
+				ks = append(ks, string(v.Ks[i]))
+			case "im":
+				ks = append(ks, strconv.Itoa(int(v.IKs[i])))
+			default:
+				ks = append(ks, strconv.Itoa(i))
+			}
+		}
+		return ks
+	}
+	same := func(a, b []string) bool {
+		if len(a) != len(b) {
+			return false
+		}
+		for i := range a {
+			if a[i] != b[i] {
+				return false
+			}
+		}
+		return true
+	}
+	// deterministic nested-use probe
+	for _, o := range objs {
+		o := o
+		nestedUses := map[string]func(){
+			"WriteValue":                  func() { encode(o.g) },
+			"Size":                        func() { enumerate(o.g, nil) },
+			"Keys (a second enumeration)": func() { enumerate(o.g, nil) },
+			"Equals(self)":                func() { o.g.Equals(o.g) },
+			"CompareTo(self)":             func() { o.g.CompareTo(o.g) },
+			"String":          func() { _ = fmt.Sprint(o.g) },
+		}
+		for name, use := range nestedUses {
+			progress("nested " + name + " in " + vh.Clip(o.v.Line(), 300))
+			var got []string
+			var size int
+			out := vh.Guard(func() { got, size = enumerate(o.g, use) })
+			res.Cases++
+			if !out.OK() || !same(got, wantKeys(o.v)) || size != len(o.v.L) {
+				res.fail(vg.TypeName[o.v.K]+".Keys:enumeration-disturbed-by-nested-"+strings.Fields(name)[0],
+					fmt.Sprintf("a loop over the keys of a value yields %d of its %d keys when %s of the same value is called inside the loop", len(got), len(o.v.L), name),
+					map[string]interface{}{"stage": "history", "seed": seed, "value": vh.Clip(o.v.Line(), 1500), "nested_call": name, "keys_seen": len(got), "panic": vh.Clip(out.Panic, 200)})
+			}
+			if b := vh.Hex(encode(o.g)); b != o.bytes {
+				res.fail("WriteValue:"+vg.TypeName[o.v.K]+":changes-after-read-only-use", "the encoding of an unmodified value changed after read-only calls on it",
+					map[string]interface{}{"stage": "history", "seed": seed, "value": vh.Clip(o.v.Line(), 1500), "nested_call": name})
+			}
+		}
+	}
+	// concurrent read-only use of the same objects
+	const workers = 10
+	iters := 60
+	if thorough {
+		iters = 600
+	}
+	var mu sync.Mutex
+	var wg sync.WaitGroup
+	start := make(chan struct{})
+	for w := 0; w < workers; w++ {
+		wg.Add(1)
+		go func(w int) {
+			defer wg.Done()
+			<-start
+			for it := 0; it < iters; it++ {
+				for i := range objs {
+					o := objs[(i+w)%len(objs)]
+					var b string
+					var keys []string
+					var size int
+					eq, cmp := true, 0
+					out := vh.Guard(func() {
+						b = vh.Hex(encode(o.g))
+						keys, size = enumerate(o.g, nil)
+						eq = o.g.Equals(o.g) || o.v.HasNaN()
+						cmp = o.g.CompareTo(o.g)
+						if o.v.HasNaN() || o.v.HasMap() {
+							cmp = 0
+						}
+					})
+					if out.OK() && b == o.bytes && same(keys, wantKeys(o.v)) && size == len(o.v.L) && eq && cmp == 0 {
+						continue
+					}
+					mu.Lock()
+					what := "encoding differs from the sequential one"
+					key := "WriteValue:" + vg.TypeName[o.v.K] + ":differs-when-shared-concurrently"
+					if out.OK() && b == o.bytes {
+						what = fmt.Sprintf("enumeration yields %d of %d keys / Equals(self) %v / CompareTo(self) %d", len(keys), len(o.v.L), eq, cmp)
+						key = vg.TypeName[o.v.K] + ".Keys:differs-when-shared-concurrently"
+					}
+					res.fail(key, fmt.Sprintf("%d goroutines use the same unmodified value read-only at once: %s", workers, what),
+						map[string]interface{}{"stage": "history", "seed": seed, "value": vh.Clip(o.v.Line(), 1500), "bytes": vh.Clip(b, 600), "expected_bytes": vh.Clip(o.bytes, 600), "panic": vh.Clip(out.Panic, 200)})
+					mu.Unlock()
+				}
+			}
+		}(w)
+	}
+	close(start)
+	progress("concurrent read-only use of shared values")
+	wg.Wait()
+	res.Cases += workers * iters * len(objs)
+	res.Counts["shared:concurrent-read-only-uses"] = workers * iters * len(objs)
+	res.Counts["shared:objects"] = len(objs)
+}
+
+// ---- watchdog of the child process: a stage that makes no progress is reported and the process exits
+
+var (
+	progressMu   sync.Mutex
+	progressNote string
+	progressAt   = time.Now()
+)
+
+func progress(s string) {
+	progressMu.Lock()
+	progressNote, progressAt = s, time.Now()
+	progressMu.Unlock()
+}
+
+func startWatchdog(limit time.Duration) {
+	go func() {
+		for {
+			time.Sleep(time.Second)
+			progressMu.Lock()
+			idle, n := time.Since(progressAt), progressNote
+			progressMu.Unlock()
+			if idle > limit {
+				fmt.Fprintln(os.Stderr, "HANG "+n)
+				os.Exit(9)
+			}
+		}
+	}()
+}
+
 // childMain runs the stages and prints the result as JSON
 func childMain(seed uint64, thorough bool) {
 	// one JSON line per stage, flushed at once: what a stage found survives a crash of a later one
-	for _, st := range []func(uint64, bool, *childResult){stageDecodeHistory, stageAfterFailures, stageConcurrent} {
+	startWatchdog(40 * time.Second)
+	for _, st := range []func(uint64, bool, *childResult){stageDecodeHistory, stageAfterFailures, stageConcurrent, stageShared} {
 		res := &childResult{Counts: map[string]int{}}
 		st(seed, thorough, res)
 		b, _ := json.Marshal(res)
@@ -469,10 +700,10 @@ func runChild(env *vh.Env, rep *vh.Report, seed uint64) {
 		}
 		rep.Evaluations += res.Cases
 	}
-	if timedOut || werr != nil || nStages < 3 {
+	if timedOut || werr != nil || nStages < 4 {
 		tail := stderr.String()
 		stage := "?"
-		for _, s := range []string{"concurrent", "after-failures", "decode-history"} {
+		for _, s := range []string{"shared", "concurrent", "after-failures", "decode-history"} {
 			if containsLine(tail, "stage "+s) {
 				stage = s
 				break
@@ -482,7 +713,7 @@ func runChild(env *vh.Env, rep *vh.Report, seed uint64) {
 			tail = tail[len(tail)-1500:]
 		}
 		what := "crashed"
-		if timedOut {
+		if timedOut || containsLine(tail, "HANG ") {
 			what = "hung"
 		}
 		rep.Fail("property", "WriteValue+ReadValue:process-"+what+"-in-"+stage,
